@@ -422,4 +422,255 @@ theorem emitCount_pos (bufLen : Nat) (e : Entry) (rest : List Entry) (h : 24 + e
   simp [h1, h2, h3]
 
 
+
+/-- the guest's buffers: inside a memory smaller than 4 GiB, not overlapping -/
+structure Layout (memLen bufPtr bufLen usedPtr : Nat) : Prop where
+  small : memLen < 4294967296
+  buf : bufPtr + bufLen ≤ memLen
+  used : usedPtr + 4 ≤ memLen
+  disj : usedPtr + 4 ≤ bufPtr ∨ bufPtr + bufLen ≤ usedPtr
+
+/-- what the client reads after a call: bufferUsed and the complete entries within it -/
+def clientView (mem : Mem) (bufPtr bufLen usedPtr : Nat) : Nat × List Rec :=
+  let used := leVal (slice mem usedPtr 4)
+  (used, decode ((slice mem bufPtr bufLen).take used))
+
+/-- all that the property needs of a directory: LocOK, field ranges, type obtainable -/
+structure DirOK (pm : Nat) (path : Bytes) (d : Dir) : Prop where
+  loc : LocOK d
+  entries : ∀ e ∈ d.entries, EntryOK e ∧ TypeOK pm path e
+
+theorem mem_drop_of {α} (l : List α) (p : Nat) (x : α) (h : x ∈ l.drop p) : x ∈ l := List.mem_of_mem_drop h
+
+/-- one call whose stream is positioned before entry `p` -/
+theorem readFrom_at (pm : Nat) (d : Dir) (path : Bytes) (hd : DirOK pm path d) (p : Nat) (hp : p ≤ d.entries.length)
+    (mem : Mem) (bufPtr bufLen usedPtr : Nat) (hl : Layout mem.length bufPtr bufLen usedPtr) :
+    ∃ mem' i', readFrom pm d path (.at p) mem bufPtr bufLen usedPtr
+        = .val (.done ⟨Gen.WasiPath.errnoSuccess, some (.at i'), mem'⟩) ∧
+      mem'.length = mem.length ∧
+      clientView mem' bufPtr bufLen usedPtr =
+        ((emit d bufLen (d.entries.drop p) p 0).2.1,
+         recsFrom d p ((d.entries.drop p).take (emitCount bufLen (d.entries.drop p) 0))) := by
+  have hbl : bufLen < 4294967296 := by have := hl.small; have := hl.buf; omega
+  have hu4 : usedPtr + (leBytes 4 0).length ≤ mem.length := by simp [leBytes_length]; exact hl.used
+  -- memory after the first store
+  obtain ⟨mem1, hm1⟩ : ∃ m, m = mem.take usedPtr ++ leBytes 4 0 ++ mem.drop (usedPtr + (leBytes 4 0).length) := ⟨_, rfl⟩
+  have hlen1 : mem1.length = mem.length := by rw [hm1]; exact stored_length mem usedPtr _ hu4
+  have hsplit := split_at_slice mem1 bufPtr bufLen (by rw [hlen1]; exact hl.buf)
+  have hRlen : (slice mem1 bufPtr bufLen).length = bufLen := slice_length _ _ _ (by rw [hlen1]; exact hl.buf)
+  have hAlen : (mem1.take bufPtr).length = bufPtr := by
+    simp only [List.length_take]; have := hl.buf; omega
+  have hloop := rdLoop_seg pm d path bufPtr bufLen hbl (d.entries.drop p) p 0
+    (mem1.take bufPtr) (slice mem1 bufPtr bufLen) (mem1.drop (bufPtr + bufLen))
+    (by simp [hAlen]) (by simp [hRlen]) (by omega) (by rw [← hsplit, hlen1]; exact hl.small)
+    (fun e he => (hd.entries e (List.mem_of_mem_drop he)).2)
+    (fun j hj1 hj2 => by
+      have : j ≤ d.entries.length := by simp at hj2; omega
+      exact Int.le_of_lt (hd.loc.pos j (by omega) this))
+  rw [← hsplit] at hloop
+  have hb := emit_bounds d bufLen (d.entries.drop p) p 0 (by omega)
+  simp only [Nat.zero_add] at hb
+  have hde := decode_emit d bufLen (d.entries.drop p) p 0
+  have hcnt : emitCount bufLen (d.entries.drop p) 0 = emitCount bufLen (d.entries.drop p) 0 := rfl
+  obtain ⟨r, hr⟩ : ∃ r, r = emit d bufLen (d.entries.drop p) p 0 := ⟨_, rfl⟩
+  rw [← hr] at hb hloop hde
+  obtain ⟨mem2, hm2⟩ : ∃ m, m = mem1.take bufPtr ++ r.1 ++ (slice mem1 bufPtr bufLen).drop r.1.length ++ mem1.drop (bufPtr + bufLen) := ⟨_, rfl⟩
+  rw [← hm2] at hloop
+  have hlen2 : mem2.length = mem.length := by
+    rw [hm2]
+    simp only [List.length_append, List.length_drop, hAlen, hRlen]
+    have := hl.buf
+    omega
+  have h4 : (leBytes 4 r.2.1).length = 4 := leBytes_length _ _
+  have hu4' : usedPtr + (leBytes 4 r.2.1).length ≤ mem2.length := by rw [h4, hlen2]; exact hl.used
+  obtain ⟨mem3, hm3⟩ : ∃ m, m = mem2.take usedPtr ++ leBytes 4 r.2.1 ++ mem2.drop (usedPtr + (leBytes 4 r.2.1).length) := ⟨_, rfl⟩
+  have hrun : readFrom pm d path (.at p) mem bufPtr bufLen usedPtr
+      = .val (.done ⟨Gen.WasiPath.errnoSuccess, some (.at r.2.2), mem3⟩) := by
+    unfold readFrom
+    simp only [i32Store]
+    rw [storeBytes_ok mem usedPtr (leBytes 4 0) hu4, ← hm1]
+    simp only [Out.bind_val]
+    rw [hloop]
+    simp only [Out.bind_val]
+    rw [storeBytes_ok mem2 usedPtr _ hu4', ← hm3]
+    rfl
+  refine ⟨mem3, r.2.2, hrun, ?_, ?_⟩
+  · rw [hm3, stored_length mem2 usedPtr _ hu4', hlen2]
+  · unfold clientView
+    rw [← hr]
+    have hsame := slice_stored_same mem2 usedPtr (leBytes 4 r.2.1) hu4'
+    have hdisj := slice_stored_disj mem2 usedPtr (leBytes 4 r.2.1) hu4' bufPtr bufLen
+      (by rw [h4]; exact hl.disj)
+    rw [← hm3] at hsame hdisj
+    rw [h4] at hsame
+    simp only [hsame, hdisj]
+    have hu : leVal (leBytes 4 r.2.1) = r.2.1 := leVal_leBytes 4 _ (by have := hb.2.1; omega)
+    rw [hu]
+    -- the buffer region of mem2
+    have hmid : slice mem2 bufPtr bufLen = r.1 ++ (slice mem1 bufPtr bufLen).drop r.1.length := by
+      have : mem2 = mem1.take bufPtr ++ (r.1 ++ (slice mem1 bufPtr bufLen).drop r.1.length) ++ mem1.drop (bufPtr + bufLen) := by
+        rw [hm2]; simp
+      rw [this]
+      have hml : (r.1 ++ (slice mem1 bufPtr bufLen).drop r.1.length).length = bufLen := by
+        simp only [List.length_append, List.length_drop, hRlen]; omega
+      have := slice_mid (mem1.take bufPtr) (r.1 ++ (slice mem1 bufPtr bufLen).drop r.1.length) (mem1.drop (bufPtr + bufLen)) bufPtr hAlen.symm
+      rw [hml] at this
+      exact this
+    rw [hmid]
+    have htake : (r.1 ++ (slice mem1 bufPtr bufLen).drop r.1.length).take r.2.1
+        = r.1 ++ ((slice mem1 bufPtr bufLen).drop r.1.length).take (r.2.1 - r.1.length) := by
+      rw [List.take_append]
+      have : List.take r.2.1 r.1 = r.1 := List.take_of_length_le hb.1
+      rw [this]
+    rw [htake]
+    congr 1
+    exact hde _
+      (fun e he => (hd.entries e (List.mem_of_mem_drop he)).1)
+      (fun j hj1 hj2 => by
+        have hj : j ≤ d.entries.length := by simp at hj2; omega
+        have h1 := hd.loc.pos j (by omega) hj
+        have h2 := hd.loc.fits j hj
+        constructor <;> omega)
+      (by omega)
+      (by
+        simp only [List.length_take, List.length_drop, hRlen, Nat.zero_add]
+        have := hb.2.1
+        omega)
+
+
+/-! ### where the stream stands before the loop -/
+
+theorem cookieToLong_loc (l : Int) (h0 : 0 ≤ l) (h1 : l < 9223372036854775808) : cookieToLong l.toNat = l := by
+  unfold cookieToLong
+  have : l.toNat % 18446744073709551616 = l.toNat := Nat.mod_eq_of_lt (by omega)
+  rw [this]
+  have : l.toNat < 9223372036854775808 := by omega
+  simp only [this, if_true]
+  omega
+
+/-- fresh descriptor, cookie 0: `opendir`, no `seekdir` -/
+theorem position_fresh (pm : Nat) (d : Dir) (path : Bytes) (mem : Mem) (hp : path.length < pm) :
+    positionStream pm d path none mem 0 = .val (.inr (.at 0)) := by
+  simp [positionStream, hp, Gen.WasiPath.dirCookieStart, Gen.WasiPath.seekWhenCookie, opendir]
+
+/-- opened descriptor, cookie = a `d_next` value: `seekdir` puts the stream there, wherever it was -/
+theorem position_cookie (pm : Nat) (d : Dir) (path : Bytes) (hl : LocOK d) (s : Pos) (mem : Mem)
+    (p : Nat) (h1 : 1 ≤ p) (hp : p ≤ d.entries.length) :
+    positionStream pm d path (some s) mem (d.loc p).toNat = .val (.inr (.at p)) := by
+  have hpos := hl.pos p h1 hp
+  have hne : (d.loc p).toNat ≠ 0 := by omega
+  simp only [positionStream, Out.bind_val, Gen.WasiPath.seekWhenCookie, Gen.WasiPath.dirCookieStart, ne_eq, hne,
+    not_false_eq_true, decide_true, if_true]
+  rw [cookieToLong_loc _ (by omega) (hl.fits p hp), seekdir_loc d hl p hp]
+
+/-- opened descriptor, cookie 0: the stream stays where the previous call left it -/
+theorem position_zero_open (pm : Nat) (d : Dir) (path : Bytes) (s : Pos) (mem : Mem) :
+    positionStream pm d path (some s) mem 0 = .val (.inr s) := by
+  simp [positionStream, Gen.WasiPath.seekWhenCookie, Gen.WasiPath.dirCookieStart]
+
+/-! ### the client protocol -/
+
+/-- The WASI client: call with `cookie`; collect the complete entries; stop when the buffer was not
+    filled; otherwise continue from the `d_next` of the last complete entry. -/
+def client (pm : Nat) (d : Dir) (path : Bytes) (bufPtr bufLen usedPtr : Nat) :
+    Nat → Nat → Option Pos → Mem → Option (List Rec)
+  | 0, _, _, _ => none
+  | fuel + 1, cookie, st, mem =>
+    match fdReaddir pm d path st mem bufPtr bufLen cookie usedPtr with
+    | .val (.done r) =>
+      if r.errno ≠ Gen.WasiPath.errnoSuccess then none else
+      let v := clientView r.mem bufPtr bufLen usedPtr
+      if v.1 < bufLen then some v.2
+      else match v.2.getLast? with
+        | none => none
+        | some l => (client pm d path bufPtr bufLen usedPtr fuel l.next r.dirState r.mem).map (v.2 ++ ·)
+    | _ => none
+
+theorem recsFrom_append (d : Dir) : ∀ (l1 l2 : List Entry) (i : Nat),
+    recsFrom d i (l1 ++ l2) = recsFrom d i l1 ++ recsFrom d (i + l1.length) l2 := by
+  intro l1
+  induction l1 with
+  | nil => intro l2 i; simp [recsFrom]
+  | cons e l ih =>
+    intro l2 i
+    simp only [List.cons_append, recsFrom, ih l2 (i + 1), List.length_cons]
+    congr 3
+    omega
+
+theorem recsFrom_getLast (d : Dir) : ∀ (l : List Entry) (i : Nat), l ≠ [] →
+    ∃ r, (recsFrom d i l).getLast? = some r ∧ r.next = (d.loc (i + l.length)).toNat := by
+  intro l
+  induction l with
+  | nil => intro _ h; exact absurd rfl h
+  | cons e l ih =>
+    intro i _
+    cases l with
+    | nil => exact ⟨recOf d i e, by simp [recsFrom], by simp [recOf]⟩
+    | cons e2 l2 =>
+      obtain ⟨r, h1, h2⟩ := ih (i + 1) (by simp)
+      refine ⟨r, ?_, ?_⟩
+      · simp only [recsFrom] at h1 ⊢
+        rw [List.getLast?_cons_cons]
+        exact h1
+      · rw [h2]; congr 2; simp; omega
+
+
+theorem fdReaddir_positioned (pm : Nat) (d : Dir) (path : Bytes) (st : Option Pos) (mem : Mem)
+    (bufPtr bufLen cookie usedPtr : Nat) (p : Pos)
+    (h : positionStream pm d path st mem cookie = .val (.inr p)) :
+    fdReaddir pm d path st mem bufPtr bufLen cookie usedPtr = readFrom pm d path p mem bufPtr bufLen usedPtr := by
+  unfold fdReaddir; rw [h]; rfl
+
+/-- **the client protocol delivers everything that is left, exactly once, in order**: from any
+    call whose stream gets positioned before entry `p` -/
+theorem client_from (pm : Nat) (d : Dir) (path : Bytes) (hd : DirOK pm path d) (bufPtr bufLen usedPtr : Nat)
+    (hmax : ∀ e ∈ d.entries, 24 + e.name.length ≤ bufLen) (h24 : 24 ≤ bufLen) :
+    ∀ (fuel p cookie : Nat) (st : Option Pos) (mem : Mem), p ≤ d.entries.length →
+      d.entries.length - p + 1 ≤ fuel → Layout mem.length bufPtr bufLen usedPtr →
+      positionStream pm d path st mem cookie = .val (.inr (.at p)) →
+      client pm d path bufPtr bufLen usedPtr fuel cookie st mem = some (recsFrom d p (d.entries.drop p)) := by
+  intro fuel
+  induction fuel with
+  | zero => intro p _ _ _ _ hf; omega
+  | succ fuel ih =>
+    intro p cookie st mem hp hf hl hpos
+    obtain ⟨mem', i', hrun, hlen, hview⟩ := readFrom_at pm d path hd p hp mem bufPtr bufLen usedPtr hl
+    have hb := emit_bounds d bufLen (d.entries.drop p) p 0 (by omega)
+    simp only [Nat.zero_add] at hb
+    unfold client
+    rw [fdReaddir_positioned pm d path st mem bufPtr bufLen cookie usedPtr _ hpos, hrun]
+    simp only [ne_eq, not_true_eq_false, if_false, hview]
+    by_cases hlt : (emit d bufLen (d.entries.drop p) p 0).2.1 < bufLen
+    · simp only [hlt, if_true]
+      rw [emit_not_full d bufLen _ p 0 (by omega) hlt, List.take_length]
+    · simp only [hlt, if_false]
+      -- something is left, and the buffer holds at least the next entry
+      have hne : d.entries.drop p ≠ [] := by
+        intro h0
+        rw [h0] at hlt
+        simp [emit] at hlt
+        omega
+      obtain ⟨e, rest, hcons⟩ := List.exists_cons_of_ne_nil hne
+      have hmem : e ∈ d.entries := List.mem_of_mem_drop (by rw [hcons]; exact List.mem_cons_self)
+      have hc1 : 1 ≤ emitCount bufLen (d.entries.drop p) 0 := by
+        rw [hcons]; exact emitCount_pos bufLen e rest (hmax e hmem)
+      have hcle := emitCount_le bufLen (d.entries.drop p) 0
+      obtain ⟨c, hc⟩ : ∃ c, c = emitCount bufLen (d.entries.drop p) 0 := ⟨_, rfl⟩
+      rw [← hc] at hc1 hcle ⊢
+      have hdl : (d.entries.drop p).length = d.entries.length - p := by simp
+      have htl : ((d.entries.drop p).take c).length = c := by simp; omega
+      have htne : (d.entries.drop p).take c ≠ [] := by
+        intro h0; rw [h0] at htl; simp at htl; omega
+      obtain ⟨r, hr1, hr2⟩ := recsFrom_getLast d _ p htne
+      rw [htl] at hr2
+      simp only [hr1, hr2]
+      rw [ih (p + c) (d.loc (p + c)).toNat (some (.at i')) mem' (by omega) (by omega) (by rw [hlen]; exact hl)
+        (position_cookie pm d path hd.loc _ mem' (p + c) (by omega) (by omega))]
+      simp only [Option.map_some, Option.some.injEq]
+      have hsplit : d.entries.drop p = (d.entries.drop p).take c ++ d.entries.drop (p + c) := by
+        rw [← List.drop_drop, List.take_append_drop]
+      conv => rhs; rw [hsplit]
+      rw [recsFrom_append, htl]
+
+
 end W2c2Verif.WasiReaddir
